@@ -247,6 +247,10 @@ def opsSurvival (op : String) : Option (P String) :=
   | "nsga2" => some do
       let c ← bool; let dirs ← list bool; let n ← nat; let merged ← list solF
       pure ("v " ++ showNats (nsga2Survival c dirs merged n))
+  | "gaes" => some do
+      -- GeneticAlgorithm / EvolutionaryStrategy: sorted(merged, key=cmp_to_key(comparator))[:N]
+      let c ← bool; let dirs ← list bool; let n ← nat; let merged ← list solF
+      pure ("v " ++ showNats ((truncateBy (fun a b => paretoCompare c dirs a b ≤ 0) merged n).map (·.id)))
   | "spea2" => some do
       let c ← bool; let dirs ← list bool; let n ← nat; let k ← nat; let merged ← list solF
       pure (match spea2Survival c dirs k merged n with
